@@ -79,7 +79,7 @@ Theorem conflict_free_exact evs st ents sol :
   req_true_ok [] evs = true ->
   run_events (pr_soft P) db (trail_events evs) [] = Some ents ->
   check_sat U P db (tlits ents) sol = true ->
-  enc_final_ok U st (sel_of (tlits ents)) (exempt P (sel_of (tlits ents))) = true ->
+  enc_final_ok U st (sel_of (tlits ents)) (exempt U P (sel_of (tlits ents))) = true ->
   same_set sol G /\
   (forall s, In (CDeps s) (e_calls st) <-> In s G) /\
   (forall n, In (CCands n) (e_calls st) <-> exists so, (so = None \/ exists s, so = Some s /\ In s G) /\ In n (mentioned U P so)).
